@@ -3,7 +3,7 @@ import re
 
 from . import model
 from .model import X, show, loc, norm_path, walk
-from .cfg import Flow, facts_of
+from .cfg import Flow, facts_of, Slicer
 
 FINITE_ITERS = re.compile(
     r"(core|std|alloc)::(slice::(iter::)?(Iter|IterMut|Chunks|ChunksMut|ChunksExact|Windows|Split)|ops::(range::)?(Range|RangeInclusive)|"
@@ -105,6 +105,7 @@ def classify_loop(prog, func, header, blocks, srcs):
     body = func.body
     x = X(body)
     flow = Flow(body)
+    sl_ = Slicer(body)
     exits = []  # (block, edge index) leaving the loop
     for b in blocks:
         t = body.blocks[b].term
@@ -152,10 +153,17 @@ def classify_loop(prog, func, header, blocks, srcs):
             rv = x.rvalue(s.rv, x.depth)
             if rv[0] == "bin" and rv[1] in ("Add", "AddWithOverflow") and rv[2] == lhs and rv[3][0] == "const" and isinstance(rv[3][2], int) and rv[3][2] >= 1:
                 name = show(lhs)
+                nrx = re.compile(r"(?<![\w.])%s(?![\w])" % re.escape(name))
                 for (eb, k) in exits:
                     for (a, tr) in flow.edge_facts(("e", eb, k)):
-                        if a[0] in ("lt", "le", "eq") and (name in show(a[1]) or name in show(a[2])):
-                            return "counter", "%s += %s on every iteration; exit compares it (%s)" % (name, rv[3][2], show(a[1], 40) + " ~ " + show(a[2], 40))
+                        if a[0] in ("lt", "le", "eq"):
+                            # the compared value may be a local computed from the counter (`match sbn.checked_sub(off) { Some(o) if o < len => .. }`)
+                            txt = " ".join(show(z, 200) for z in (a[1], a[2], sl_.expand(a[1]), sl_.expand(a[2])))
+                            if nrx.search(txt):
+                                return "counter", "%s += %s on every iteration; exit compares it (%s)" % (name, rv[3][2], show(a[1], 40) + " ~ " + show(a[2], 40))
+                        elif a[0] == "variant" and any(c[0] == "call" and re.search(r"::checked_(sub|add)$", c[1]) and any(nrx.search(show(g_, 200)) for g_ in c[2])
+                                                       for c in walk(sl_.expand(a[1]))):
+                            return "counter", "%s += %s on every iteration; exit on the checked difference with it (%s)" % (name, rv[3][2], show(a[1], 60))
     return None, "no recognised progress measure"
 
 
